@@ -22,10 +22,22 @@ RID = bytes([2, 4, 1, 0x23, 0x45, 0x67])
 MID = bytes([2, 4, 2, 0x34, 0x56, 0x78])
 
 
-def patch_ids(b, req):
+def patch_ids(b, req, cfg=None):
     b = bytes(b)
     b = b.replace(RID, bytes([2, 4]) + req.reqid.to_bytes(4, "big"))
     b = b.replace(MID, bytes([2, 4]) + req.msgid.to_bytes(4, "big"))
+    # keep the datagram authentic where it still parses, so that the mutation is what the receive path meets
+    # (a session with an auth key drops replies whose MAC does not verify)
+    if cfg is not None and cfg.ver == "v3" and cfg.auth != "none":
+        try:
+            m = rc.parse_msg(b)
+            if m.get("ver") == "v3" and len(m["auth"]) == 12:
+                pos = m["auth_pos"]
+                z = b[:pos] + bytes(12) + b[pos + 12:]
+                ka = rx.kul(cfg.auth, cfg.akt, cfg.akm, bytes(m["engine"]))
+                b = b[:pos] + rx.hmac96(cfg.auth, ka, z) + b[pos + 12:]
+        except Exception:
+            pass
     return b
 
 
@@ -158,10 +170,10 @@ def run(tier):
                 kp = rx.kul(cfg.auth, cfg.pkt, cfg.pkm, a.engine)
                 salt = bytes([0, 0, 0, 1, 9, 9, 9, mi % 256])
                 ct = rx.usm_encrypt(cfg.priv, kp[:16], salt, (a.boots).to_bytes(4, "big"), (a.time).to_bytes(4, "big"), plain)
-                return rc.enc_v3_msg(req.msgid, 3, a.engine, a.boots, a.time, cfg.user.encode(), bytes(12), salt, rc.tlv(0x04, ct))
+                return patch_ids(rc.enc_v3_msg(req.msgid, 3, a.engine, a.boots, a.time, cfg.user.encode(), bytes(12), salt, rc.tlv(0x04, ct)), req, cfg)
         else:
-            def mk(req, m=m):
-                return patch_ids(m["b"], req)
+            def mk(req, m=m, cfg=cfg):
+                return patch_ids(m["b"], req, cfg)
         try:
             exc = api_case(cfg, op, mk)
         except BaseException as e:  # noqa
